@@ -3,7 +3,7 @@
 cd "$(dirname "$0")/.." || exit 2
 [ -n "${VP_RUN_REPO:-}" ] && { VERIF_REPO="$VP_RUN_REPO"; export VERIF_REPO; }
 VERIF_EVIDENCE_DIR="$(pwd)/sim/scratch/evidence-thorough"; export VERIF_EVIDENCE_DIR; mkdir -p "$VERIF_EVIDENCE_DIR"
-for p in ${*:-C01 C02 C03 C04 C05 C06 C07 C08 C09 C10 C11 C13 C19}; do
+for p in ${*:-C09 C08 C10 C05 C11 C13 C04 C06 C19 C07 C01 C02 C03}; do
     out=$(./check $p thorough 2>&1); code=$?
     echo "$p exit=$code $(printf '%s\n' "$out" | tail -1)"
     [ $code -ne 0 ] && printf '%s\n' "$out" | grep -E "VIOLATION|violates|error" | head -5
